@@ -128,6 +128,9 @@ type FnTrans struct {
 	usedGlobalInvs map[string]Clause
 	modAllowed []string
 	heapAnc  map[string][]*frameFact
+	baseAC   map[string]string
+	heapBases map[string][]string
+	baseDone map[string]bool
 	frameDone map[string]bool
 	loopObjs []*ssa.Alloc
 	loopObjPaths map[*ssa.Alloc][][]int
@@ -462,6 +465,7 @@ func (tr *FnTrans) load(h *Heap, addr string, t types.Type, guard string, quiet 
 	hterm := h.lookup(srt)
 	term := fmt.Sprintf("(select %s %s)", hterm, addr)
 	tr.frameInstances(hterm, addr)
+	tr.existingObjectFacts(hterm, addr, t)
 	if !quiet && needsWF(t, 0) {
 		if _, isInt := t.Underlying().(*types.Basic); !isInt || tr.smt.intMode || isStringType(t) {
 			n := tr.smt.define("ld", srt, term)
@@ -505,7 +509,42 @@ func (tr *FnTrans) store(h *Heap, addr string, t types.Type, v string) {
 	if anc := tr.heapAnc[cur]; len(anc) > 0 {
 		tr.heapAnc[nt] = anc
 	}
+	if b := tr.heapBases[cur]; len(b) > 0 {
+		tr.heapBases[nt] = b
+	}
 	h.set(srt, nt)
+}
+
+// existingObjectFacts: a pointer or slice read from memory refers to an object that existed when
+// the unconstrained heap array it ultimately comes from was introduced (unless the function itself
+// stored it, in which case the read yields the stored term).
+func (tr *FnTrans) existingObjectFacts(hterm, addr string, t types.Type) {
+	var root func(string) string
+	switch t.Underlying().(type) {
+	case *types.Pointer, *types.Map, *types.Chan:
+		root = func(v string) string { return fmt.Sprintf("(rootloc %s)", v) }
+	case *types.Slice:
+		root = func(v string) string { return fmt.Sprintf("(rootloc (sbase %s))", v) }
+	default:
+		return
+	}
+	if strings.Contains(addr, "q%%") || strings.Contains(addr, "r%%") || strings.Contains(addr, "p%%") {
+		return
+	}
+	for _, b := range tr.heapBases[hterm] {
+		ac := tr.baseAC[b]
+		if ac == "" {
+			continue
+		}
+		key := b + "|" + addr
+		if tr.baseDone[key] {
+			continue
+		}
+		if tr.sink == nil {
+			tr.baseDone[key] = true
+		}
+		tr.assume("true", fmt.Sprintf("(< %s %s)", root(fmt.Sprintf("(select %s %s)", b, addr)), ac), "pointer in memory refers to an object that already existed")
+	}
 }
 
 // frameInstances adds, for a read at addr from a heap derived from bulk updates (append, copy), the
